@@ -31,6 +31,7 @@ def run(F, R, ctx):
     reader_per_port_rule(F, R)
     symbol_write_rule(F, R)
     escape_agreement_rule(F, R)
+    complex_sign_rule(F, R)
 
 
 def _run(F, R, ctx):
@@ -359,3 +360,25 @@ def escape_agreement_rule(F, R):
                "returns an error / eof instead of the datum)" % (kind, cb["line"], ", ".join(repr(c) for c in missing)),
                fw.loc(cb["line"]), sample={"accepted_by_lexer": "".join(sorted(accepted))})
     R.floor("C12.q", "generic escapers emitted by the external formatter", n, 1)
+
+
+def complex_sign_rule(F, R):
+    R.rule("C12.j", "the printers of complex numbers agree on when to write the joining `+` (sibling agreement): every function "
+                    "that asks SteelComplex::imaginary_is_negative — Display for SteelComplex (write / display) and "
+                    "format_number (number->string) — also asks imaginary_is_finite, because an infinite or NaN imaginary part "
+                    "is printed with its own sign (`+inf.0`): a printer that only looks at the sign writes `1++inf.0i`, which "
+                    "the lexer does not read as a number")
+    callers = F.graph()[1]
+    neg = [n for n in F.fns if re.search(r"\{impl SteelComplex\}::imaginary_is_negative$", n)]
+    fin = [n for n in F.fns if re.search(r"\{impl SteelComplex\}::imaginary_is_finite$", n)]
+    if not neg or not fin:
+        raise CheckError("anchor lost: SteelComplex::imaginary_is_negative / imaginary_is_finite")
+    cs = sorted(c for c in callers.get(neg[0], ()) if c in F.fns and c.startswith("steel::"))
+    for c in cs:
+        f = F.fns[c]
+        ok = bool(f.call_blocks(r"\{impl SteelComplex\}::imaginary_is_finite$", wrappers=True))
+        R.inst("C12.j", "%s / the joining + depends on sign and finiteness of the imaginary part" % f.short(), ok,
+               "%s decides how to join the two parts of a complex number from the sign of the imaginary part alone "
+               "(imaginary_is_negative without imaginary_is_finite): (write 1+inf.0i) gives 1++inf.0i, which reads back as a "
+               "symbol" % f.short(), f.loc(), sample=True)
+    R.floor("C12.j", "printers of complex numbers", len(cs), 2)
